@@ -19,7 +19,7 @@ def main():
         if want and r['id'] not in want:
             continue
         s = r.get('suite') or {}
-        if s.get('all_stable_pass') or not s or r.get('retest'):
+        if s.get('all_stable_pass') or not s or s.get('all_stable_pass_after_retest'):
             continue
         names = [l.split('NOT PASSED')[1].strip() for l in s.get('summary', []) if 'NOT PASSED' in l]
         if not names or len(names) > 5:
